@@ -335,12 +335,28 @@ def save_kern(
         part = spt.merge_parts(score_data.parts)
     else:
         part = score_data
-    if not part.measures:
-        spt.add_measures(part)
-    spt.fill_rests(part, measurewise=False)
-    exporter = KernExporter(part)
-    out_data = exporter.parse()
-    out_data = exporter.trim(out_data)
+    # The measures and the rests added for the export (one rest per gap of a (voice, staff) pair)
+    # belong to the written file only: the part of the caller is handed back as it was. Left
+    # behind, the filled rests of a voice that changes staff coincide with the notes of the same
+    # voice on the other staff, and a later export of the part (save_mei writes a voice as one
+    # layer) would write them as chord members.
+    elements_before = {
+        id(el)
+        for cls in (spt.Measure, spt.Rest)
+        for el in part.iter_all(cls, include_subclasses=True)
+    }
+    try:
+        if not part.measures:
+            spt.add_measures(part)
+        spt.fill_rests(part, measurewise=False)
+        exporter = KernExporter(part)
+        out_data = exporter.parse()
+        out_data = exporter.trim(out_data)
+    finally:
+        for cls in (spt.Rest, spt.Measure):
+            for el in list(part.iter_all(cls, include_subclasses=True)):
+                if id(el) not in elements_before:
+                    part.remove(el)
     # Use numpy savetxt to save the file
     footer = "Encoded using the Partitura Python package, version 1.6.0"
     if out is not None:
